@@ -91,6 +91,9 @@ func ruleRebuiltListStorage(w *core.World, r *core.Report) {
 			if _, isArr := x.X.(*ssa.Alloc); isArr {
 				return // a slice literal: an array of its own
 			}
+			if x.Max != nil && isConstInt(0)(x.Max) {
+				return // s[:0:0] has no capacity: the first append allocates an array of its own
+			}
 			grow(x.X)
 		case *ssa.MakeSlice:
 		case *ssa.Const:
@@ -385,35 +388,6 @@ func ruleStartPointFromTargetInSyncMode(w *core.World, r *core.Report) {
 		n := core.FieldName(fa)
 		return n == "bisyncSeq" || n == "bisyncOffset"
 	}
-	// functions of the package (reached from the start-point computation by plain calls) that read the position
-	memo := map[*ssa.Function]int{} // 0 unknown, 1 reads, 2 does not, 3 in progress
-	var reads func(g *ssa.Function, depth int) bool
-	reads = func(g *ssa.Function, depth int) bool {
-		if g == nil || len(g.Blocks) == 0 || depth > 4 {
-			return false
-		}
-		switch memo[g] {
-		case 1:
-			return true
-		case 2, 3:
-			return false
-		}
-		memo[g] = 3
-		res := false
-		for _, s := range core.Sites(g, true) {
-			if readsPosition(s) {
-				res = true
-			} else if s.Callee != nil && s.Callee.Pkg == f.Pkg && s.Callee != f && reads(s.Callee, depth+1) {
-				res = true
-			}
-		}
-		if res {
-			memo[g] = 1
-		} else {
-			memo[g] = 2
-		}
-		return res
-	}
 	// is v the configured replay mode?
 	isMode := func(v ssa.Value) bool {
 		return core.DependsOn(v, func(x ssa.Value) bool {
@@ -461,6 +435,37 @@ func ruleStartPointFromTargetInSyncMode(w *core.World, r *core.Report) {
 			}
 		}
 		return false
+	}
+	// functions of the package (reached from the start-point computation by plain calls) in which the position is
+	// read on a way that sync mode can take: the read, or the call that leads to it, is not guarded in that function
+	memo := map[*ssa.Function]int{} // 0 unknown, 1 reads, 2 does not, 3 in progress
+	var reads func(g *ssa.Function, depth int) bool
+	reads = func(g *ssa.Function, depth int) bool {
+		if g == nil || len(g.Blocks) == 0 || depth > 4 {
+			return false
+		}
+		switch memo[g] {
+		case 1:
+			return true
+		case 2, 3:
+			return false
+		}
+		memo[g] = 3
+		res := false
+		for _, s := range core.Sites(g, true) {
+			if !readsPosition(s) && !(s.Callee != nil && s.Callee.Pkg == f.Pkg && s.Callee != f && reads(s.Callee, depth+1)) {
+				continue
+			}
+			if !core.HoldsInto(s.Instr.Block(), excludedInSync) {
+				res = true
+			}
+		}
+		if res {
+			memo[g] = 1
+		} else {
+			memo[g] = 2
+		}
+		return res
 	}
 	n := 0
 	for _, s := range core.Sites(f, true) {
